@@ -24,6 +24,23 @@ typedef struct DPlan {
     int nbad; PBad b[24];
 } DPlan;
 
+/* client programs: corpus modules ("arith", token) or generated heap programs ("gen<pseed>", token ignored) */
+extern void heap_gen_program(uint64_t pseed, Buf *src);
+static bool is_gen(const char *prog) { return strncmp(prog, "gen", 3) == 0 && prog[3] >= '0' && prog[3] <= '9'; }
+static void gen_key(const char *prog, char *key, size_t ksz, Buf *srcout) {
+    Buf src = {0}; heap_gen_program(strtoull(prog + 3, NULL, 10), &src);
+    snprintf(key, ksz, "g%016llx", (unsigned long long)fnv64((char *)src.d));
+    if (srcout) *srcout = src; else buf_free(&src);
+}
+static bool client_module(const char *prog, int tok, const uint8_t **d, size_t *n, bool *needs_extern) {
+    if (is_gen(prog)) { char key[40]; gen_key(prog, key, sizeof key, NULL); Prog *pg = prog_lookup(key); if (!pg || !pg->ok) return false; *d = pg->d; *n = pg->n; if (needs_extern) *needs_extern = false; return true; }
+    Module *m = corpus_find(prog, tok); if (!m) return false; *d = m->d; *n = m->n; if (needs_extern) *needs_extern = m->needs_extern; return true;
+}
+static Ref *client_ref(const char *prog, int tok) {
+    if (is_gen(prog)) { char key[40]; gen_key(prog, key, sizeof key, NULL); return ref_lookup_key(key); }
+    return ref_lookup(prog, tok);
+}
+
 /* ---------------- plan generation / text ---------------- */
 static const char *pick_prog(bool allow_big) {
     for (;;) {
@@ -66,10 +83,11 @@ static void plan_gen(DPlan *P, uint64_t seed, const RunOpts *o) {
     for (int i = 0; i < P->nclients; i++) {
         PClient *c = &P->c[i];
         snprintf(c->prog, sizeof c->prog, "%s", pick_prog(false));
-        int nt = corpus_ntoks(c->prog);
+        if (sim_rndn(4) == 0) snprintf(c->prog, sizeof c->prog, "gen%u", 100000 + sim_rndn(quick ? 150 : 20000) * 64 + (unsigned)i);   /* distinct per client index */
+        int nt = is_gen(c->prog) ? 1 : corpus_ntoks(c->prog);
         c->tok = i % (nt ? nt : 1);
         /* (prog,tok) must be unique per run so every output byte is attributable */
-        for (int j = 0; j < i; j++) if (P->c[j].tok == c->tok && strcmp(P->c[j].prog, c->prog) == 0) { c->tok = (c->tok + 1) % nt; j = -1; }
+        for (int j = 0; j < i && !is_gen(c->prog); j++) if (P->c[j].tok == c->tok && strcmp(P->c[j].prog, c->prog) == 0) { c->tok = (c->tok + 1) % nt; j = -1; }
         c->arrive = window ? sim_rndn((uint32_t)window) : 0;
         /* mode 2: the daemon idles out after 1 s; aim the arrivals at the instant it decides to shut down */
         if (P->mode == 2) c->arrive = 1000000ull - 2000 - 45 + sim_rndn(70);
@@ -298,7 +316,10 @@ static void fam_prepare(uint64_t seed, const RunOpts *o) {
     DPlan P; uint64_t s = seed;
     if (o->planfile) { if (!plan_parse(&P, &s, o->planfile)) return; }
     else plan_gen(&P, seed, o);
-    for (int i = 0; i < P.nclients; i++) ref_get(P.c[i].prog, P.c[i].tok);
+    for (int i = 0; i < P.nclients; i++) {
+        if (is_gen(P.c[i].prog)) { char key[40]; Buf src = {0}; gen_key(P.c[i].prog, key, sizeof key, &src); Prog *pg = prog_get((char *)src.d); buf_free(&src); if (pg && pg->ok) ref_get_blob(key, pg->d, pg->n); }
+        else ref_get(P.c[i].prog, P.c[i].tok);
+    }
     for (int i = 0; i < P.nbad; i++) if (P.b[i].kind == BK_HOSTILE) {
         Module *m = corpus_find(P.b[i].prog, P.b[i].tok); if (!m) continue;
         Buf hb = {0}; char desc[128]; char key[64];
@@ -333,10 +354,10 @@ static void fam_run(uint64_t seed, const RunOpts *o, Result *r) {
     }
     nkills = 0;
     for (int i = 0; i < P.nclients; i++) {
-        Module *m = corpus_find(P.c[i].prog, P.c[i].tok);
-        if (!m) { strcpy(r->verdict, "error"); buf_printf(&r->detail, "no module %s.%d", P.c[i].prog, P.c[i].tok); return; }
+        const uint8_t *md; size_t mn;
+        if (!client_module(P.c[i].prog, P.c[i].tok, &md, &mn, NULL)) { strcpy(r->verdict, "skip"); buf_printf(&r->detail, "no module for client program %s.%d", P.c[i].prog, P.c[i].tok); return; }
         char path[64]; snprintf(path, sizeof path, "/sim/m%d.nvm", i);
-        simfs_put(path, m->d, m->n);
+        simfs_put(path, md, mn);
         char **av = calloc(4, sizeof(char *)); av[0] = "nano_vm"; av[1] = "--daemon"; av[2] = strdup(path);
         char *role = malloc(16); snprintf(role, 16, "client%d", i);
         /* with a pre-started daemon, clients arrive after it had time to bind (it is not the property that a
@@ -346,7 +367,7 @@ static void fam_run(uint64_t seed, const RunOpts *o, Result *r) {
         if (P.c[i].kill_sys) { kills[nkills].p = cl[i]; kills[nkills].at = P.c[i].kill_sys; nkills++; }
     }
     ncopkill = 0; ncops_seen = 0; copkills_fired = 0;
-    for (int i = 0; i < P.nclients; i++) if (P.c[i].copkill) { Module *m = corpus_find(P.c[i].prog, P.c[i].tok); if (m && m->needs_extern) copkill_at[ncopkill++] = P.c[i].copkill; }
+    for (int i = 0; i < P.nclients; i++) if (P.c[i].copkill) { const uint8_t *md; size_t mn; bool ne = false; if (client_module(P.c[i].prog, P.c[i].tok, &md, &mn, &ne) && ne) copkill_at[ncopkill++] = P.c[i].copkill; }
     if (nkills || ncopkill) sim_hooks.pre_syscall = pre_syscall_hook;
     static BadState bs[24];
     for (int i = 0; i < P.nbad; i++) {
@@ -373,7 +394,7 @@ static void fam_run(uint64_t seed, const RunOpts *o, Result *r) {
     int served = 0, mismatches = 0;
     for (int i = 0; i < P.nclients; i++) {
         if (P.c[i].kill_sys && WIFSIGNALED(cl[i]->status) && WTERMSIG(cl[i]->status) == SIGKILL) continue;  /* we killed it */
-        Ref *ref = ref_lookup(P.c[i].prog, P.c[i].tok);
+        Ref *ref = client_ref(P.c[i].prog, P.c[i].tok);
         if (!ref || !ref->valid) continue;   /* standalone VM crashed on it: not this property's business */
         if (cl[i]->alive) { res_violation(r, prop, "client-hung:%s", P.c[i].prog); buf_printf(&r->detail, "client%d (%s) never terminated\n", i, P.c[i].prog); continue; }
         Buf e1 = {0}, e2 = {0}; strip_vmd_lines(&cerr[i], &e1); strip_vmd_lines(&ref->err, &e2);
@@ -381,7 +402,7 @@ static void fam_run(uint64_t seed, const RunOpts *o, Result *r) {
         if (!buf_eq(&cout[i], &ref->out)) what = "stdout";
         else if (exit_code_of(cl[i]->status) != exit_code_of(ref->status)) what = "status";
         else if (!buf_eq(&e1, &e2)) what = "stderr";
-        bool session_may_fail = ncopkill > 0 && corpus_find(P.c[i].prog, P.c[i].tok)->needs_extern;
+        bool session_may_fail = false; { const uint8_t *md; size_t mn; bool ne = false; if (ncopkill > 0 && client_module(P.c[i].prog, P.c[i].tok, &md, &mn, &ne)) session_may_fail = ne; }
         if (what && session_may_fail && exit_code_of(cl[i]->status) == 1 && e1.len > 0 && cout[i].len <= ref->out.len &&
             (cout[i].len == 0 || memcmp(cout[i].d, ref->out.d, cout[i].len) == 0)) { what = NULL; }   /* co-process was killed under it: contained failure (C16's outcome) */
         if (what) {
@@ -418,6 +439,7 @@ static void fam_run(uint64_t seed, const RunOpts *o, Result *r) {
     probe(r, "idle_timeout_mode", P.mode == 2); probe(r, "daemon_idle_exits", P.mode == 2 && daemon && !daemon->alive);
     r->nontrivial = (served > 0 || P.mode == 2) && (S.threads_created > 1 || P.nbad > 0 || P.mode == 2);
     snprintf(r->class_key, sizeof r->class_key, "%016llx", (unsigned long long)sim_sched_hash());
+    { int ng = 0; for (int i = 0; i < P.nclients; i++) ng += is_gen(P.c[i].prog); probe(r, "generated_program_clients", (uint64_t)ng); }
     probe(r, "clients", (uint64_t)P.nclients); probe(r, "served_equal", (uint64_t)served); probe(r, "bad_peers", (uint64_t)P.nbad);
     probe(r, "lazy_launch", P.mode == 1); probe(r, "audits", audits); probe(r, "audit_objs", audit_objs);
     probe(r, "cop_sessions", S.execs > (uint64_t)(P.mode == 1 ? nd : 0) ? S.execs - (uint64_t)(P.mode == 1 ? nd : 0) : 0);
